@@ -172,7 +172,7 @@ def build_all(prop: str, tier: str = "quick") -> dict:
             ns = re.search(r"^namespace\s+([\w.]+)", code, re.M)
             nsname = ns.group(1) if ns else ""
             imports.append(f"import Props.{pf.stem}\n")
-            for t in re.findall(r"^theorem\s+([\w.']+)", code, re.M):
+            for t in re.findall(r"^theorem\s+([\w.'?!]+)", code, re.M):
                 thms.append(t)
                 full_names[t] = f"{nsname}.{t}"
         res["theorems"] = thms
